@@ -280,6 +280,7 @@ func c13(c *Ctx) {
 	r.Rule("R13.3", "non-constant slice/index is dominated by a comparison bounding it by len of the same value, or is a decoder advance rest[n:] under n>=0 with n a protowire.Consume* length, or has a listed call-site precondition whose co-guards are all present")
 	r.Rule("R13.4", "panicking go-bitfield calls: SetBytes argument is length-checked against the bitfield; Bit/OnesBefore indices come from hashBits.Next(log2(fanout)) of the shard that owns a bitfield of that fanout; NewBitfield size is capped")
 	r.Rule("R13.5", "single-value type assertions: the operand is produced by a callee all of whose non-error returns yield that concrete type (qp.BuildMap/NewBuilder().Build() yield the prototype's node type)")
+	r.Rule("R13.7", "a repository function that can return a nil pointer/interface together with a nil error (meaning 'nothing left' / 'not found') has every dereference of that result at its repository call sites dominated by a nil test")
 	r.Rule("R13.6", "bounded work: every CFG loop is a range loop, an iterator loop that advances on every iteration, a counter loop or a decoder loop that consumes input; every recursion cycle in the reader packages contains a block load (or is a listed arithmetic recursion with its reason)")
 
 	var sites []panicSite
@@ -317,6 +318,7 @@ func c13(c *Ctx) {
 	r.Floor("R13.5", counts["assert"], 5)
 	d.dependencyAssertions()
 	c.checkBoundedWork()
+	c.checkNilResults()
 	if f := os.Getenv("VERIF_BCE_FILE"); f != "" {
 		c.bceCrossCheck(f, sites)
 	}
